@@ -98,7 +98,19 @@ P = {
   tech="Lean 4 proof (induction, decision tables, wait state machine) + regenerated facts + correspondence on real child processes"),
 }
 
+import re
+def ties(pid):
+    """names of the translated-source tie theorems of a property (Props/Cxx.lean, section Tie)"""
+    src = open(os.path.join(V, "lean", "NotationModel", "Props", pid + ".lean")).read()
+    return re.findall(r"theorem\s+(source_\w+_refines_model)", src)
+
 def entry(pid, d):
+    t = ties(pid)
+    if t:
+        d = dict(d)
+        d["text"] += (" Translated-source tie (DESIGN.md 10.5): the Go functions are translated to Lean on every run "
+                      "(Generated/Src*.lean) and proved to compute what the model computes for all inputs: " + ", ".join(t) + ".")
+        d["tech"] += " + Go-to-Lean translation of the decision functions with refinement theorems"
     return {
         "property_id": pid,
         "quick_cmd": f"./check {pid} --tier quick",
@@ -126,6 +138,7 @@ m = {
  },
  "engines": [
   {"name": "lean-model", "path": "lean/", "serves_properties": claimed, "kind_free_text": "Lean 4 model + kernel-checked theorems + compiled driver judging the implementation's observations (model agreement + Holds)"},
+  {"name": "go2lean", "path": "extract/go2lean.go", "serves_properties": sorted(p for p in claimed if ties(p)), "kind_free_text": "translator from a Go subset to Lean do-blocks (Generated/Src*.lean, regenerated every run); refinement theorems tie the translated functions to the hand-written models"},
   {"name": "extract", "path": "extract/", "serves_properties": claimed, "kind_free_text": "go/ast fact extractor regenerating lean/NotationModel/Generated on every run"},
   {"name": "harness", "path": "harness/", "serves_properties": claimed, "kind_free_text": "Go correspondence harness calling the real packages in-process (-tags verif)"},
  ],
